@@ -41,6 +41,8 @@ def isH : Ph → Bool
   | _ => false
 
 structure InvR (c : Cfg) (s : St) : Prop where
+  r0 : s.stopReq = true → s.pstate ≠ .running
+  rinit : s.main = .init → s.stopReq = false
   r1 : s.stopReq = false → s.pstate ≠ .running → s.main ≠ .init → (s.prod = .finished ∨ s.prod = .failed)
   r2 : s.stopReq = false → s.prod = .getPark → s.prodRunning = true
   r2b : ∀ b, s.stopReq = false → s.prod = .putWait b → s.prodRunning = true
@@ -62,7 +64,7 @@ structure InvR (c : Cfg) (s : St) : Prop where
 
 set_option hygiene false in
 macro "obtain_invR" h:ident : tactic =>
-  `(tactic| obtain ⟨r1,r2,r2b,r2c,r3,r4,r5,r6,r7,e1,e4,e4b,e4c,e6,e5,e7,s1,s2⟩ := $h)
+  `(tactic| obtain ⟨r0,rinit,r1,r2,r2b,r2c,r3,r4,r5,r6,r7,e1,e4,e4b,e4c,e6,e5,e7,s1,s2⟩ := $h)
 
 macro "invR_fields" : tactic =>
   `(tactic| (constructor <;> (try simp only [St.qi, St.qsize, St.live, St.wt, set_last, cnt_append, isU, isH]) <;>
